@@ -16,6 +16,8 @@ import GIV.Lemmas.TsLifeRun
 import GIV.Lemmas.TsLifeUnpack
 import GIV.Lemmas.TsLifeFrame
 import GIV.Lemmas.TsLifeNames
+import GIV.Lemmas.TsLifeMore
+import GIV.Lemmas.TsLifeBg
 
 namespace GIV.C04
 open GIV GIV.TsLife
@@ -320,5 +322,151 @@ theorem retention_removes_nothing : ∀ (n : Nat) (sched : List Nat) (s : RC),
 
 example : Gen.TsLife.workdirRootImpliesTestWork = true := rfl
 example : (RC.init 2 true).step 0 = none := by decide
+
+/-! ### more: the environment as a function, first free name, the root goes last, termination -/
+
+/-- The environment handed to a script is a function of the work directory, Setup's additions and
+THREE host variables: two host environments that agree on PATH, GOCOVERDIR and GORACE — and differ
+in anything else, in any way — give the same `ts.env`, entry for entry (and so the same environment
+for every child process). No other host variable can have any influence. -/
+theorem env_function_of_three_host_vars : ∀ (host host' : EnvList) (workdir : String) (setup : EnvList),
+    hostGetenv host "PATH" = hostGetenv host' "PATH" →
+    hostGetenv host "GOCOVERDIR" = hostGetenv host' "GOCOVERDIR" →
+    hostGetenv host "GORACE" = hostGetenv host' "GORACE" →
+    initialEnv host workdir setup = initialEnv host' workdir setup ∧
+    ∀ cd, childEnv (initialEnv host workdir setup) cd = childEnv (initialEnv host' workdir setup) cd := by
+  intro host host' wd setup h1 h2 h3
+  have hr : hostReads = ["PATH", "GOCOVERDIR", "GORACE"] := by decide
+  have := initialEnv_congr host host' wd setup (by
+    rw [hr]; intro k hk
+    simp only [List.mem_cons, List.not_mem_nil, or_false] at hk
+    rcases hk with rfl | rfl | rfl <;> assumption)
+  exact ⟨this, fun cd => by rw [this]⟩
+
+example : initialEnv [("SECRET", "a"), ("PATH", "/bin"), ("HOME", "/root")] "/t/script-a" [("X", "1")] =
+    initialEnv [("PATH", "/bin"), ("LANG", "C"), ("GOFLAGS", "-mod=mod")] "/t/script-a" [("X", "1")] := by decide
+
+/-- The `#N` probing loop takes the FIRST free candidate of `b, b#1, b#2, …`: the name given is not
+taken, every earlier candidate is; in particular a base name nobody has taken is kept as it is —
+the subtest name, and with it the work directory `<root>/script-<name>` (an injective function of
+the name alone), does not depend on anything but the base names of the files before it. -/
+theorem names_first_free : ∀ (taken : List String) (b : String),
+    (∃ n j, pickName taken b = some n ∧ n = cand b j ∧ n ∉ taken ∧ ∀ k, k < j → cand b k ∈ taken) ∧
+    (b ∉ taken → pickName taken b = some b) ∧
+    (∀ root x y, workdirOf root x = workdirOf root y → x = y) := by
+  have _ : FNames := ⟨rfl⟩
+  intro taken b
+  refine ⟨pickName_first taken b, ?_, fun root x y => workdirOf_injective root x y⟩
+  intro hb
+  obtain ⟨n, j, h, hn, _, hall⟩ := pickName_first taken b
+  cases j with
+  | zero => rw [h, hn]; rfl
+  | succ j' => exact absurd (hall 0 (by omega)) hb
+
+example : pickName ["foo", "foo#1", "bar"] "foo" = some "foo#2" ∧ pickName ["foo", "foo#1", "bar"] "baz" = some "baz" := by decide +kernel
+
+/-- Under EVERY interleaving, in every reachable state: once the shared root is gone the count is
+zero and every work directory is gone; conversely, as long as some script's work directory exists
+the root exists too (and that script's finisher has not even started) — the root is never removed
+while a work directory still exists. -/
+theorem refcount_root_last : ∀ (n : Nat) (sched : List Nat) (s : RC), 1 ≤ n →
+    (RC.init n false).run sched = some s →
+    (s.root = false → s.count = 0 ∧ s.wd = List.replicate n false) ∧
+    (∀ i : Nat, s.wd[i]? = some true → s.root = true ∧ s.pcs[i]? = some PC.rmAll) :=
+  fun n sched _ hn h => rc_root_last (rinv_run sched (rinv_init n hn) h)
+
+example : ((RC.init 2 false).run [0, 0, 1]).map (fun s => (s.wd, s.root, s.count)) = some ([false, false], true, 1) := by decide
+
+/-- The cleanup terminates under every interleaving: a schedule of N finishers has at most 2N+2
+steps, it is complete exactly when it has 2N+2 steps (two per finisher and two more for the one
+that sees zero), and an incomplete one can always be continued — so every maximal schedule is a
+complete one, and by `refcount_cleanup` ends with the root removed exactly once. -/
+theorem refcount_terminates : ∀ (n : Nat) (sched : List Nat) (s : RC), 1 ≤ n →
+    (RC.init n false).run sched = some s →
+    sched.length ≤ 2 * n + 2 ∧ (s.complete = true ↔ sched.length = 2 * n + 2) ∧
+    (s.complete = false → ∃ i, (s.step i).isSome = true) := by
+  intro n sched s hn h
+  have hi := rinv_run sched (rinv_init n hn) h
+  have hr := todo_run sched (rinv_init n hn) h
+  rw [todo_init n hn] at hr
+  have hz := todo_zero_iff hi
+  refine ⟨by omega, ⟨fun hc => by have := hz.2 hc; omega, fun hl => hz.1 (by omega)⟩, ?_⟩
+  intro hc
+  have : ∃ p ∈ s.pcs, p ≠ PC.done := by
+    false_or_by_contra
+    rename_i hno
+    have : s.complete = true := by
+      simp only [RC.complete, List.all_eq_true, beq_iff_eq]
+      intro p hp
+      false_or_by_contra
+      rename_i hne
+      exact hno ⟨p, hp, hne⟩
+    rw [hc] at this; cases this
+  obtain ⟨p, hp, hne⟩ := this
+  obtain ⟨i, hlt, hpi⟩ := List.getElem_of_mem hp
+  exact ⟨i, rc_progress (p := p) (by rw [List.getElem?_eq_getElem hlt, hpi]) hne⟩
+
+example : ((RC.init 3 false).run [0, 1, 2, 0, 1, 2, 2, 2]).map (fun s => s.complete) = some true ∧
+    [0, 1, 2, 0, 1, 2, 2, 2].length = 2 * 3 + 2 := by decide
+
+/-! ### more: the bookkeeping of background commands -/
+
+/-- `runScript`'s outcome is the projection of the final script state `runFinal` (defined in
+GIV/Lemmas/TsLifeMore.lean by the same equations); on EVERY exit path — setup failure, failing line,
+failing `wait` that leaves its list in place, skip, stop, end of script, a deferred function that
+aborts — `ts.background` is empty in that state: no bookkeeping entry survives the run. -/
+theorem background_list_empty_at_end : ∀ (cfg : Cfg) (files : List Entry) (ops : List Op),
+    (runScript cfg files ops).trace = (runFinal cfg files ops).trace.reverse ∧
+    (runScript cfg files ops).registered = (runFinal cfg files ops).registered ∧
+    (runScript cfg files ops).finalFs = (runFinal cfg files ops).fs ∧
+    (runFinal cfg files ops).bg = [] := by
+  intro cfg files ops
+  obtain ⟨a, b, c⟩ := runScript_final cfg files ops
+  exact ⟨a, b, c, runFinal_bg_empty cfg files ops⟩
+
+/-- the full statement one would like: every started background command is waited for EXACTLY once. -/
+def background_waited_exactly_once_statement : Prop :=
+  ∀ (cfg : Cfg) (files : List Entry) (ops : List Op) (id : Nat) (k : BgKind),
+    Ev.started id k ∈ (runScript cfg files ops).trace → (runScript cfg files ops).trace.count (Ev.waited id) = 1
+
+/-- It is FALSE for the model (and for the code, where `<-bg.wait` reads a closed channel: harmless):
+a `wait` whose status check fails part-way leaves `ts.background` in place, and the end-of-run
+block receives from the `wait` channel of every entry again — also of those already waited for. -/
+theorem background_waited_exactly_once_false : ¬ background_waited_exactly_once_statement := by
+  intro h
+  have := h (exCfg false) [] [.bg "" .ok false, .bg "" .bad false, .waitAll] 0 .ok (by decide +kernel)
+  revert this
+  decide +kernel
+
+example : (runScript (exCfg false) [] [.bg "" .ok false, .bg "" .bad false, .waitAll]).trace =
+    [.started 0 .ok, .started 1 .bad, .waited 0, .waited 1, .applyUpdates, .deferred 8, .deferred 7,
+     .interrupted 0, .interrupted 1, .waited 0, .waited 1, .logFlush] := by decide +kernel
+
+/-- The strongest true variant: when every background command of the script ends with the status
+its line expects (`exec … &` for a command that succeeds, `! exec … &` for one that fails — so no
+`wait` can fail its status check) and the script does not hang in a `wait` for a process that never
+exits, then on EVERY exit path (failing line, ContinueOnError, skip, stop, end of script, aborting
+deferred functions, `wait name` / `wait` in any order) every started background command is waited
+for EXACTLY once. -/
+theorem background_waited_exactly_once_partial : ∀ (cfg : Cfg) (files : List Entry) (ops : List Op),
+    (∀ name kind neg, Op.bg name kind neg ∈ ops → kind.success ≠ neg) →
+    (runScript cfg files ops).verdict ≠ .hang →
+    ∀ (id : Nat) (k : BgKind), Ev.started id k ∈ (runScript cfg files ops).trace →
+      (runScript cfg files ops).trace.count (Ev.waited id) = 1 := by
+  intro cfg files ops hg hv id k hs
+  refine waited_exactly_once cfg files ops ?_ hv id k hs
+  intro op hop
+  cases op with
+  | bg name kind neg => simpa [opGood] using hg name kind neg hop
+  | _ => rfl
+
+example : (runScript (exCfg false) [] [.bg "x" .ok false, .bg "" .bad true, .bg "y" .sig false, .waitOne "x", .failLine]).trace =
+    [.started 0 .ok, .started 1 .bad, .started 2 .sig, .waited 0, .applyUpdates, .deferred 8, .deferred 7,
+     .interrupted 1, .interrupted 2, .waited 1, .waited 2, .logFlush] ∧
+    (runScript (exCfg false) [] [.bg "x" .ok false, .bg "" .bad true, .bg "y" .sig false, .waitOne "x", .failLine]).verdict = .fail := by
+  decide +kernel
+-- the excluded case: a `wait` that blocks on a helper that never exits, after having received from an earlier entry
+example : (runScript (exCfg false) [] [.bg "" .ok false, .bg "" .sig false, .waitAll]).verdict = .hang ∧
+    (runScript (exCfg false) [] [.bg "" .ok false, .bg "" .sig false, .waitAll]).trace.count (Ev.waited 0) = 2 := by decide +kernel
 
 end GIV.C04
